@@ -320,8 +320,8 @@ func evalContainers(c *runner.Ctx, fs, other []fieldSpec, msgMode bool) {
 	parent := reflect.New(reflect.StructOf([]reflect.StructField{
 		{Name: "Kids", Type: mv.Type(), Tag: `valid:"required"`},
 		{Name: "L", Type: sl.Type(), Tag: `valid:"exist,le=1|at most one"`}, // (a rule of the field itself behind the marker: judged after the elements)
-		{Name: "One", Type: st, Tag: `valid:"exist"`},
-		{Name: "PP", Type: reflect.PtrTo(reflect.PtrTo(st)), Tag: `valid:"exist"`},
+		{Name: "One", Type: st, Tag: `valid:"required,exist"`}, // (both markers: the object is met once; round 14)
+		{Name: "PP", Type: reflect.PtrTo(reflect.PtrTo(st)), Tag: `valid:"exist,required"`},
 		{Name: "LPP", Type: reflect.SliceOf(reflect.PtrTo(reflect.PtrTo(st))), Tag: `valid:"ge=1,required,le=2"`},
 		{Name: "MP", Type: reflect.MapOf(reflect.TypeOf(""), reflect.PtrTo(reflect.PtrTo(st))), Tag: `valid:"exist"`},
 	}))
